@@ -63,6 +63,15 @@ def scanNul : List Nat → Option Nat
   | [] => none
   | b :: bs => if b = 0 then some 0 else (scanNul bs).map (· + 1)
 
+/-- `for(; (length != size()) && (first[length] != '\\0'); length++)` of the
+    constant-evaluation branch of `strlen()`: at most `n` elements from `pos` -/
+def scanNulBounded (buf : List Nat) (pos : Nat) : Nat → Option Nat
+  | 0 => some 0
+  | n + 1 =>
+    match buf[pos]? with
+    | none => none
+    | some b => if b = 0 then some 0 else (scanNulBounded buf (pos + 1) n).map (· + 1)
+
 /-- `std::copy(first, last, out)` / `std::copy_n` / `std::ranges::copy`:
     element by element, left to right; returns memory and the output iterator -/
 def copyLoop (buf : List Nat) (pos : Nat) : List Nat → Option (List Nat × Nat)
@@ -104,10 +113,10 @@ def strlen (v : View) (buf : List Nat) : Outcome :=
   | some (some p) => .ok buf (some (p - v.off))
   | some none => .ok buf (some v.N)
 
-/-- `strlen()`, constant-evaluation branch: `string_length(data())` -/
+/-- `strlen()`, constant-evaluation branch: scan bounded by `size()` -/
 def strlenCE (v : View) (buf : List Nat) : Outcome :=
   if !v.sizeCheck then .assertFailed buf else
-  match scanNul (buf.drop v.off) with
+  match scanNulBounded buf v.off v.N with
   | none => .ub
   | some n => .ok buf (some n)
 
